@@ -9,6 +9,7 @@ package main
 import (
 	"fmt"
 	"io"
+	"math"
 	"reflect"
 	"strconv"
 	"strings"
@@ -58,6 +59,13 @@ func (s simFmtStr) Format(f fmt.State, verb rune) {
 	id, _ := strconv.Atoi(string(s))
 	curEnv().fmtMethod(id, "Format", f, verb)
 }
+
+type simPtrErr2 struct {
+	ID  int
+	Msg string
+}
+
+func (s *simPtrErr2) Error() string { return s.Msg }
 
 type simPlainErr struct {
 	ID  int
@@ -231,6 +239,17 @@ func (e *env) build(v *Val) interface{} {
 			return &s
 		}
 		return s
+	case "nan":
+		return math.NaN()
+	case "inf":
+		if v.I < 0 {
+			return math.Inf(-1)
+		}
+		return math.Inf(1)
+	case "ptrerr":
+		// a non-nil pointer-typed error (direct operands only: inside a
+		// container a pointer prints its address)
+		return &simPtrErr2{ID: v.ID, Msg: string(v.S)}
 	case "rv":
 		// a reflect.Value operand: printed like the value it holds
 		return reflect.ValueOf(e.build(child(v)))
